@@ -285,6 +285,16 @@ fn reject_cases(rt: &tokio::runtime::Runtime, r: &mut Report, op: &str, seed: u6
                         expect_rejected(rt, r, op, name, mi.rust, &m);
                     }
                 }
+                // more bytes than declared, the surplus in frames of its own: a frame ends exactly at the declared length
+                if !req.body.is_empty() {
+                    for surplus in [&b" "[..], &b"<!-- more -->"[..], &b"\n<Extra/>"[..], &b"x"[..]] {
+                        let mut m = req.clone();
+                        m.body.extend_from_slice(surplus);
+                        m.framing = Some(Framing { cuts: vec![req.body.len(), 1], ..Default::default() });
+                        m.set_header("content-length", &req.body.len().to_string());
+                        expect_rejected(rt, r, op, "surplus-frames-after-the-declared-length", mi.rust, &m);
+                    }
+                }
                 // buffered body whose length differs from the declared Content-Length
                 if !req.body.is_empty() {
                     for (name, delta) in [("declared-length-too-large", 3i64), ("declared-length-too-small", -3)] {
